@@ -171,7 +171,13 @@ fn gen_c03(rng: &mut Rng, tier: Tier) -> LoopScn {
         s.sample_size = Some(1);
     }
     match rng.below(12) {
-        0 => s.max_time = Some((0, 0)),
+        0 => {
+            // A zero ceiling wins whatever the floor says.
+            s.max_time = Some((0, 0));
+            if rng.chance(1, 2) {
+                s.min_time = Some(*rng.pick(&[(0u64, 1u32), (0, 1_000_000), (3, 0), (u64::MAX, 999_999_999)]));
+            }
+        }
         1 => s.max_time = Some((u64::MAX, 999_999_999)),
         2 => s.min_time = Some((0, 0)),
         3 => {
@@ -509,6 +515,12 @@ fn gen_c11(rng: &mut Rng, _tier: Tier, mode: u64) -> LoopScn {
             s.clock.step = *rng.pick(&[1u64, 2, 3, 41, 100, 1000, 4096]);
             s.clock.start = *rng.pick(&[0u64, 7, 1 << 32, 1 << 63]);
             s.clock.read_cost = crate::looprun::unaliased_read_cost(s.clock.step, rng.range((s.clock.step / 3).max(1), s.clock.step));
+            // Coarse clocks: hundreds of readings per step, so that most
+            // pairs of readings see no tick at all.
+            if rng.chance(1, 4) {
+                s.clock.step = *rng.pick(&[601u64, 1000, 1001, 4096]);
+                s.clock.read_cost = crate::looprun::unaliased_read_cost(s.clock.step, rng.range(1, 3));
+            }
             maybe_os_timer(rng, &mut s);
             s.sample_size = None;
             s.sample_count = Some(rng.range(1, 2) as u32);
